@@ -131,11 +131,24 @@ func c20Entropy(k int) [32]byte {
 		}
 	case 4:
 		e[0] = 1
-	default:
+	case 5:
 		e[31] = 0x80
+	default:
+		// prefix families: k = 6 + 4*fam + v. v = 0 is the base of the family; v = 1, 2, 3 share exactly the
+		// first 8, 16, 31 bytes with it (a result that depends on a truncated entropy would coincide)
+		fam, v := (k-6)/4, (k-6)%4
+		for i := range e {
+			e[i] = byte(i*13 + fam*29 + 1)
+		}
+		from := []int{32, 8, 16, 31}[v]
+		for i := from; i < 32; i++ {
+			e[i] ^= byte(0x40 + v)
+		}
 	}
 	return e
 }
+
+const c20NEntropies = 6 + 4*3 // 6 patterns + 3 prefix families of 4
 
 func c20LenKey(n int) string {
 	switch {
@@ -305,10 +318,33 @@ func c20Fresh(mode string) {
 	}
 }
 
+// c20SeqCase is set while an ordered sequence of assignments is evaluated (prefix families).
+var c20SeqCase *c20Case
+
+// c20CheckPrefixFamily evaluates the four entropies of one prefix family one after the other in this process
+// (odd families in reverse order), each against the reference: a result that is cached or keyed by a truncated
+// entropy, or that depends on the evaluation order, shows up as a wrong value for the later ones.
+func c20CheckPrefixFamily(r *vlib.Run, p c20Params, fam int, t uint32) {
+	cc := c20Case{Part: "prefix", Mode: p.name, Ent: fam, Slot: t}
+	c20SeqCase = &cc
+	defer func() { c20SeqCase = nil }()
+	for i := 0; i < 4; i++ {
+		v := i
+		if fam%2 == 1 {
+			v = 3 - i
+		}
+		c20CheckAssign(r, p, 6+4*fam+v, t)
+	}
+	r.Class(fmt.Sprintf("prefix-family mode=%s reversed=%v", p.name, fam%2 == 1))
+}
+
 func c20CheckAssign(r *vlib.Run, p c20Params, ent int, t uint32) {
 	e := c20Entropy(ent)
-	e3 := c20Entropy((ent + 1) % 6)
+	e3 := c20Entropy((ent + 1) % c20NEntropies)
 	c := c20Case{Part: "assign", Mode: p.name, Ent: ent, Slot: t}
+	if c20SeqCase != nil {
+		c = *c20SeqCase // part of an ordered sequence of evaluations in one process: replay the whole sequence
+	}
 	key := "mode=" + p.name
 	bad := func(site, kind, detail string) {
 		r.Violation(site, kind, key, fmt.Sprintf("mode=%s entropy#%d slot=%d: %s", p.name, ent, t, detail), c)
@@ -473,6 +509,12 @@ func TestVerif_C20(t *testing.T) {
 					c20CheckAssign(r, p, rc.Ent, rc.Slot)
 				}
 			}
+		case "prefix":
+			for _, p := range c20ParamSets() {
+				if p.name == rc.Mode {
+					c20CheckPrefixFamily(r, p, rc.Ent, rc.Slot)
+				}
+			}
 		}
 		return
 	}
@@ -539,7 +581,7 @@ func TestVerif_C20(t *testing.T) {
 	// part 2: Shuffle for every length × 6 entropies × 2 element patterns
 	maxLen := vlib.Pick(r, 600, 1100)
 	for n := 0; n <= maxLen; n++ {
-		for ent := 0; ent < 6; ent++ {
+		for ent := 0; ent < 10; ent++ { // 6 patterns + prefix family 0
 			for variant := 0; variant < 2; variant++ {
 				idx++
 				if !r.Mine(idx) {
@@ -565,6 +607,21 @@ func TestVerif_C20(t *testing.T) {
 				}
 				r.Space(1)
 				c20CheckAssign(r, p, ent, uint32(t))
+			}
+		}
+	}
+
+	// part 4: entropies that share their first 8 / 16 / 31 bytes, evaluated back to back in one process, in both
+	// orders (families 1 and 2; family 0 already went through Shuffle above), at a few slots of two epochs
+	for _, p := range c20ParamSets() {
+		for fam := 1; fam <= 2; fam++ {
+			for _, t := range []int{0, p.R, p.E - 1, p.E, p.E + p.R + 1} {
+				idx++
+				if !r.Mine(idx) {
+					continue
+				}
+				r.Space(1)
+				c20CheckPrefixFamily(r, p, fam, uint32(t))
 			}
 		}
 	}
